@@ -1,6 +1,6 @@
 CONSTANTS
   AsCoded = FALSE
-  GateHole = FALSE
+  GateHole = TRUE
 INIT IInit
 NEXT INext
 CHECK_DEADLOCK FALSE
